@@ -90,6 +90,10 @@ impl<T: Read + Seek> PagedReader<T> {
             ))?;
         }
         let offset = page * self.page_size;
+
+        // The buffer content is undefined until the new page was read and validated completely
+        self.page_num = None;
+
         self.reader.seek(SeekFrom::Start(offset))?;
         self.reader.read_exact(&mut self.page_buffer)?;
         let data_size = self.page_size - CHECKSUM_SIZE;
